@@ -173,7 +173,7 @@ inline void appendUtf8(std::string& s, unsigned cp)
 
 inline unsigned randScalar(vf::Rng& r)
 {
-	static const unsigned edges[] = {0x7f, 0x80, 0x7ff, 0x800, 0xd7ff, 0xe000, 0xfffd, 0xffff, 0x10000, 0x10ffff, 0xe9, 0x20ac, 0x1f600};
+	static const unsigned edges[] = {0x7f, 0x80, 0x7ff, 0x800, 0xd7ff, 0xe000, 0xfffd, 0xffff, 0x10000, 0x10ffff, 0xe9, 0x20ac, 0x1f600, 0xfeff, 0xfeff};
 	if (r.chance(0.4)) return edges[r.below(sizeof(edges) / sizeof(edges[0]))];
 	unsigned cp;
 	do { cp = 1 + r.below(r.chance(0.5) ? 0x2fff : 0x10ffff); } while (cp >= 0xd800 && cp < 0xe000);
